@@ -3,7 +3,7 @@
    Also: values accepted from text are within the ranges the wire encoder needs. *)
 From DV Require Import Base.Prelude Model.NameM Model.TokM Model.RdTextM.
 From DV Require Import Proofs.NameValid Proofs.NameOrder Proofs.NameRel Proofs.NameText Proofs.TokEsc Proofs.TokWords
-     Proofs.TokShape Proofs.RdTextName Proofs.RdText.
+     Proofs.TokShape Proofs.RdTextName Proofs.RdTextLoc Proofs.RdText.
 Open Scope Z_scope.
 
 (* ---------- no origin on either side: the values come back unchanged ---------- *)
@@ -21,12 +21,34 @@ Proof.
   rewrite name_path_asis by assumption. cbn [bind]. rewrite IH. reflexivity.
 Qed.
 
+(* without any origin the names come back as they are; the only values that change are the three LOC sizes, which
+   are read back from their two-decimal text (loc_expect) *)
+Definition asis_val (f : tfield) (v : tval) : tval :=
+  match f, v with
+  | FLocRec, VLoc la lo alt sz hp vp => loc_expect la lo alt sz hp vp
+  | _, _ => v
+  end.
+
+Fixpoint asis_vals (fs : list tfield) (vs : list tval) : list tval :=
+  match fs, vs with
+  | f :: fs', v :: vs' => asis_val f v :: asis_vals fs' vs'
+  | _, _ => []
+  end.
+
+Lemma asis_vals_id fs vs : length fs = length vs -> existsb (fun f => match f with FLocRec => true | _ => false end) fs = false ->
+  asis_vals fs vs = vs.
+Proof.
+  revert vs. induction fs as [|f fs IH]; intros [|v vs] Hl He; cbn [length] in Hl; try discriminate; [reflexivity|].
+  cbn [existsb] in He. apply orb_false_iff in He as [E1 E2]. cbn [asis_vals]. rewrite IH by (auto; lia).
+  destruct f; try discriminate; reflexivity.
+Qed.
+
 Lemma expects_asis sty c : s_origin sty = None -> p_origin c = None -> p_relativize_to c = None ->
-  forall fs vs, Forall2 val_ok fs vs -> expects sty c fs vs = Ok vs.
+  forall fs vs, Forall2 val_ok fs vs -> expects sty c fs vs = Ok (asis_vals fs vs).
 Proof.
   intros H1 H2 H3. induction 1 as [|f v fs vs Hv _ IH]; [reflexivity|].
-  cbn [expects]. rewrite IH.
-  destruct f, v; cbn [val_ok] in Hv; try contradiction; cbn [expect bind]; try reflexivity.
+  cbn [expects asis_vals]. rewrite IH.
+  destruct f, v; cbn [val_ok] in Hv; try contradiction; cbn [expect bind asis_val]; try reflexivity.
   - rewrite name_path_asis by assumption. reflexivity.
   - rewrite names_path_asis by assumption. reflexivity.
   - rewrite name_path_asis by (assumption || reflexivity). reflexivity.
@@ -37,8 +59,8 @@ Qed.
 Theorem record_roundtrip_asis sty c fs chk vs text rest fw tw :
   schema_wf fs -> Forall2 val_ok fs vs -> style_ok sty -> line_end rest ->
   s_origin sty = None -> p_origin c = None -> p_relativize_to c = None ->
-  record_to_text sty fs vs = Ok text -> chk vs = Ok tt ->
-  record_from_text_gen fw tw c fs chk (text ++ rest) = Ok vs.
+  record_to_text sty fs vs = Ok text -> chk (asis_vals fs vs) = Ok tt ->
+  record_from_text_gen fw tw c fs chk (text ++ rest) = Ok (asis_vals fs vs).
 Proof.
   intros. eapply record_roundtrip; eauto. apply expects_asis; assumption.
 Qed.
@@ -171,7 +193,7 @@ Qed.
 Theorem parse_field_encodable c f st raw st' v :
   parse_field c f st = Ok (raw, st') -> ctor_field f raw = Ok v -> val_encodable f v.
 Proof.
-  destruct f as [maxv| |tokmax ctormax ne| | |sc| |v6| | | | | |k| |maxc| |en| | | | |bmax| | | |ipsec| | | | | | | | | |]; cbn [parse_field]; intros H Hc.
+  destruct f as [maxv| |tokmax ctormax ne| | |sc| |v6| | | | | |k| |maxc| |en| | | | |bmax| | | |ipsec| | | | | | | | | | |]; cbn [parse_field]; intros H Hc.
   - unfold get_uint, as_uint in H.
     destruct (get_unescaped st) as [[t s1]| |]; cbn [bind fst snd] in H; try discriminate.
     destruct (as_int t 10) as [z| |]; cbn [bind fst snd] in H; try discriminate.
@@ -195,17 +217,17 @@ Proof.
   - destruct v; exact Logic.I.
   - destruct v; exact Logic.I.
   - destruct v; exact Logic.I.
-  - destruct raw as [z0|b|n0|l0|w0|ns0|g0 a0 gw0|it0|sp0 sn0 sps0|kf0 kp0 ka0 kat0 kk0]; cbn [ctor_field] in Hc; try (inversion Hc; subst; exact Logic.I).
+  - destruct raw as [z0|b|n0|l0|w0|ns0|g0 a0 gw0|it0|la0 lo0 al0 sz0 hp0 vp0|sp0 sn0 sps0|kf0 kp0 ka0 kat0 kk0]; cbn [ctor_field] in Hc; try (inversion Hc; subst; exact Logic.I).
     destruct (zlen b >? 255) eqn:E; try discriminate. inversion Hc; subst. cbn [val_encodable]. lia.
   - destruct (get_string st 0) as [[t s1]| |]; cbn [bind fst snd] in H; try discriminate. inversion H; subst.
     cbn [ctor_field] in Hc.
     destruct (alg_from_text t) as [z| |] eqn:E; cbn [bind] in Hc; try discriminate. inversion Hc; subst.
     cbn [val_encodable]. eapply alg_from_text_range; eauto.
-  - destruct raw as [z0|b|n0|l0|w0|ns0|g0 a0 gw0|it0|sp0 sn0 sps0|kf0 kp0 ka0 kat0 kk0]; cbn [ctor_field] in Hc; try (inversion Hc; subst; exact Logic.I).
+  - destruct raw as [z0|b|n0|l0|w0|ns0|g0 a0 gw0|it0|la0 lo0 al0 sz0 hp0 vp0|sp0 sn0 sps0|kf0 kp0 ka0 kat0 kk0]; cbn [ctor_field] in Hc; try (inversion Hc; subst; exact Logic.I).
     destruct ((zlen b >? 255) || is_nil b || negb (forallb is_alnum b)) eqn:E; try discriminate.
     inversion Hc; subst. cbn [val_encodable]. lia.
   - destruct v; exact Logic.I.
-  - destruct raw as [z0|b|n0|l0|w0|ns0|g0 a0 gw0|it0|sp0 sn0 sps0|kf0 kp0 ka0 kat0 kk0]; cbn [ctor_field] in Hc; try (inversion Hc; subst; exact Logic.I).
+  - destruct raw as [z0|b|n0|l0|w0|ns0|g0 a0 gw0|it0|la0 lo0 al0 sz0 hp0 vp0|sp0 sn0 sps0|kf0 kp0 ka0 kat0 kk0]; cbn [ctor_field] in Hc; try (inversion Hc; subst; exact Logic.I).
     destruct (zlen b >? 255) eqn:E; try discriminate. inversion Hc; subst. cbn [val_encodable]. lia.
   - destruct (get_string st 0) as [[t s1]| |]; cbn [bind fst snd] in H; try discriminate.
     destruct (enum_parse k t) as [z| |]; cbn [bind fst snd] in H; try discriminate. inversion H; subst.
@@ -227,15 +249,15 @@ Proof.
     destruct (as_int t 8) as [z| |]; cbn [bind fst snd] in H; try discriminate.
     destruct ((z <? 0) || (z >? max16)) eqn:E; cbn [bind fst snd] in H; try discriminate.
     inversion H; subst. cbn [ctor_field] in Hc. inversion Hc; subst. cbn [val_encodable]. unfold max16 in E. lia.
-  - destruct raw as [z0|b|n0|l0|w0|ns0|g0 a0 gw0|it0|sp0 sn0 sps0|kf0 kp0 ka0 kat0 kk0]; cbn [ctor_field] in Hc; try (inversion Hc; subst; exact Logic.I).
+  - destruct raw as [z0|b|n0|l0|w0|ns0|g0 a0 gw0|it0|la0 lo0 al0 sz0 hp0 vp0|sp0 sn0 sps0|kf0 kp0 ka0 kat0 kk0]; cbn [ctor_field] in Hc; try (inversion Hc; subst; exact Logic.I).
     destruct (zlen b >? 255) eqn:E; try discriminate. inversion Hc; subst. cbn [val_encodable]. lia.
-  - destruct raw as [z0|b|n0|l0|w0|ns0|g0 a0 gw0|it0|sp0 sn0 sps0|kf0 kp0 ka0 kat0 kk0]; cbn [ctor_field] in Hc; try (inversion Hc; subst; exact Logic.I).
+  - destruct raw as [z0|b|n0|l0|w0|ns0|g0 a0 gw0|it0|la0 lo0 al0 sz0 hp0 vp0|sp0 sn0 sps0|kf0 kp0 ka0 kat0 kk0]; cbn [ctor_field] in Hc; try (inversion Hc; subst; exact Logic.I).
     destruct (zlen b >? 255) eqn:E; try discriminate. inversion Hc; subst. cbn [val_encodable]. lia.
-  - destruct raw as [z0|b|n0|l0|w0|ns0|g0 a0 gw0|it0|sp0 sn0 sps0|kf0 kp0 ka0 kat0 kk0]; cbn [ctor_field] in Hc; try (inversion Hc; subst; exact Logic.I).
+  - destruct raw as [z0|b|n0|l0|w0|ns0|g0 a0 gw0|it0|la0 lo0 al0 sz0 hp0 vp0|sp0 sn0 sps0|kf0 kp0 ka0 kat0 kk0]; cbn [ctor_field] in Hc; try (inversion Hc; subst; exact Logic.I).
     destruct (zlen b >? bmax) eqn:E; try discriminate. inversion Hc; subst. cbn [val_encodable]. lia.
   - destruct v; exact Logic.I.
   - destruct v; exact Logic.I.
-  - destruct raw as [z0|b|n0|l0|w0|ns0|g0 a0 gw0|it0|sp0 sn0 sps0|kf0 kp0 ka0 kat0 kk0]; cbn [ctor_field] in Hc; try (inversion Hc; subst; exact Logic.I).
+  - destruct raw as [z0|b|n0|l0|w0|ns0|g0 a0 gw0|it0|la0 lo0 al0 sz0 hp0 vp0|sp0 sn0 sps0|kf0 kp0 ka0 kat0 kk0]; cbn [ctor_field] in Hc; try (inversion Hc; subst; exact Logic.I).
     destruct (zlen b >? 65535) eqn:E; try discriminate. inversion Hc; subst. cbn [val_encodable]. lia.
   - destruct v; exact Logic.I.
   - destruct v; exact Logic.I.
@@ -265,6 +287,7 @@ Proof.
     destruct (negb (is_nil t) && forallb is_decimal t); try discriminate. inversion H; subst.
     cbn [ctor_field] in Hc. destruct ((dec_value t 0 <? 0) || (dec_value t 0 >? 255)) eqn:E; try discriminate.
     inversion Hc; subst. cbn [val_encodable]. lia.
+  - destruct v; exact Logic.I.
   - destruct v; exact Logic.I.
   - destruct v; exact Logic.I.
   - destruct v; exact Logic.I.
